@@ -33,6 +33,9 @@ def main(tier):
     run = c01.run_core("C01", tier, "TraceCore_C01.cfg", RULE)
     if not run.violations:
         repo_tests_under_recorder(run)
+    if not run.violations:
+        from checks import tracer_conf
+        tracer_conf.run_conformance(run, tier)
     return run.finish(RULE, assumptions=["constraints are judged modulo the recording backend's small prime; the library is field-parametric",
                                          "the recording backend's witness lists are append-only"],
                       trusted=["TLC 1.8", "harness/recorder.py (observer)", "harness/driver.py (observer)"])
